@@ -174,10 +174,16 @@ func (s *Sched) Resume(w *Waiter) {
 
 // DriverCall runs f on the driver goroutine without parking at its yields.
 func (s *Sched) DriverCall(f func()) {
+	prev := s.driver.Load()
 	s.driver.Store(goid())
-	defer s.driver.Store(0)
+	defer s.driver.Store(prev)
 	f()
 }
+
+// SetDriver marks the calling goroutine as the driver for the whole run: whatever it calls in the
+// instrumented code runs without parking (it is the scheduler, not a scheduled party), and a lock held by
+// a parked goroutine makes it run the others until the lock is free.
+func (s *Sched) SetDriver() { s.driver.Store(goid()) }
 
 // isDriver: the calling goroutine is the driver inside DriverCall.
 func (s *Sched) isDriver() bool {
